@@ -112,7 +112,9 @@ def body(chk):
                             replay=vg_replay(chk, ['masa_init<Scalar>("a","%s");' % n], why, scalar))
             chk.paths_clean('init<%s>:%s:allocations-balance-to-one-live-instance-per-handle' % (scalar, n), bad_own, key='init:ownership', family='ownership',
                             sample=dict(obligation='masa_init(H,%s) ownership' % n, paths=len(paths), why=why),
-                            replay=vg_replay(chk, ['masa_init<Scalar>("a","%s"); masa_init<Scalar>("a","%s"); masa_init<Scalar>("b","euler_1d");' % (n, n)], why, scalar, leak=True))
+                            replay=vg_replay(chk, ['masa_init<Scalar>("a","%s"); masa_init<Scalar>("a","%s"); masa_init<Scalar>("b","euler_1d");' % (n, n),
+                                              # ... and a re-initialisation while ANOTHER handle is selected, then use of that other handle (the instance released must be the one mapped to the handle, not the selected one)
+                                              'masa_init<Scalar>("a","%s"); masa_select_mms<Scalar>("b"); masa_init_param<Scalar>(); masa_sanity_check<Scalar>();' % n], why, scalar, leak=True))
         # ---- 2b. the failing calls (unknown solution name on a fresh or an existing handle, unknown handle): when the fatal error is raised the
         #          registry may not hold a pointer to a released instance (it is dereferenced by every later call in the exception build), and
         #          the static destructor that exit(1) runs next must release every instance exactly once
